@@ -36,9 +36,20 @@ THEOREMS = [P + n for n in [
     "memo_transparent", "name_compute_reads_only", "name_key_determines", "name_cache_transparent",
     "generated_name_cache_key_ok", "name_cache_key_needs_quoted", "name_cache_key_needs_is_table",
     "table_compute_reads_only", "table_cache_transparent", "generated_table_cache_key_ok",
+    "table_store_key_determines",
     "type_parse_reads_only", "type_cache_transparent", "type_cache_stale_witness", "generated_type_cache_key_known",
+    # nested dict / nested trie / lazily cached depth refine the flat view
+    "nested_get_refines", "nested_set_refines", "nested_set_keeps_uniform", "flatten_schema_refines", "dict_depth_uniform",
+    "new_trie_refines", "in_trie_refines", "find_in_trie_set_congr", "step_equiv_congr", "depth_cache_correct",
+    "supported_args_cache_correct", "match_depth_error", "stale_depth_witness", "core_step_refines",
+    # the full model (what the driver runs) refines the specification, for every history
+    "type_key_ok_of_covers", "type_key_ok_of_dialect_insensitive", "generated_keys_ok", "full_step_refines",
+    "full_run_refines", "full_schema_refines_fresh", "constructor_state_ok", "full_refines_fresh_from_mapping",
+    "full_refines_fresh_from_empty",
+    # constructor path
+    "constructor_eq_incremental", "constructor_answers_eq_incremental", "constructor_merge_witness", "nested_set_col_refines",
+    "stepN_inv", "answerN_eq_of_same_mapping",
 ]]
-THEOREMS_EXTRA: list = []  # filled below once the later stages exist
 
 
 # ------------------------------------------------------------------------------------------ translate
@@ -330,7 +341,8 @@ def model_dialects() -> list:
 
 
 def canon_type(dt) -> str:
-    return re.sub(r"\s+", "", repr(dt))
+    r = re.sub(r"\s+", "", repr(dt))
+    return "UNKNOWN" if r == "DataType(this=DType.UNKNOWN)" else r
 
 
 def uncached_type(ty: str, dialect) -> str:
@@ -425,6 +437,24 @@ class Real:
         t = exp.Table(this=parts[2], db=parts[1], catalog=parts[0])
         self.pool[key] = t
         return t
+
+    def visible_now(self, op):
+        """right after a successful add_table: the table is found, and shows the columns just given"""
+        d = op.get("dialect_arg", None)
+        n = op.get("norm_arg", None)
+        dd = d if d is not None else self.dialect
+        try:
+            table = self.table_obj(op["table"], False)
+            nt = self.s._normalize_table(table, dialect=d, normalize=n)
+            got = self.s.find(nt, raise_on_missing=False)
+            if got is None:
+                return f"add_table({[x for x, _ in op['table']]}) returned, but find() does not see the table"
+            for c, _ in op["cols"]:
+                if not self.s.has_column(table, ident_sql(c[0], c[1], dd), dialect=d, normalize=n):
+                    return f"add_table({[x for x, _ in op['table']]}, …{c[0]}…) returned, but has_column({c[0]}) is False"
+        except Exception as e:  # noqa
+            return f"lookup right after add_table leaked {classify_exc(e)}"
+        return None
 
     def apply(self, op, schema=None):
         _, exp, *_ = sg()
@@ -581,6 +611,43 @@ def raw_initial(rng, depth, quoted_ok=True):
     return flat
 
 
+def focused_history(rng, dialects, avoid_settings_clash=False):
+    """lookups that HIT: existing tables / columns, two or three dialects recurring (cache keys recur)"""
+    d = rng.choice(dialects)
+    if avoid_settings_clash and d == SETTINGS_DIALECT:
+        dialects = [x for x in dialects if x != "mysql"]
+    depth = rng.choice([1, 2])
+    f = fold_fn(d)
+    init = rand_initial(rng, depth, f)
+    while not init:
+        init = rand_initial(rng, depth, f)
+    few = [None] + [rng.choice([x for x in dialects if x]) for _ in range(2)]
+    ops = []
+    for _ in range(rng.randint(2, 10)):
+        path, cols = rng.choice(init)
+        table = [[p, rng.random() < 0.2] for p in path]
+        if rng.random() < 0.3:
+            table = table[-1:]
+        r = rng.random()
+        if r < 0.15:
+            op = {"op": "add", "table": [[p, False] for p in path], "cols": [[[rng.choice(COLS), False], rng.choice(TYPES)] for _ in range(rng.choice([1, 2]))]}
+        elif r < 0.3:
+            ops.append({"op": "find", "table": table, "raise": False, "ensure": True, "reuse": rng.random() < 0.5})
+            continue
+        elif r < 0.4:
+            op = {"op": "names", "table": table, "ov": False}
+        else:
+            c = rng.choice(cols)[0] if rng.random() < 0.85 else rng.choice(COLS)
+            op = {"op": rng.choice(["type", "type", "has"]), "table": table, "col": [c, rng.random() < 0.2], "col_str": rng.random() < 0.5}
+        op["as_str"] = rng.random() < 0.5
+        op["reuse"] = rng.random() < 0.5
+        da = rng.choice(few)
+        if da:
+            op["dialect_arg"] = da
+        ops.append(op)
+    return (d, True, init, ops, False, None)
+
+
 def rand_visible(rng, init_paths_cols):
     """a visible mapping mirroring (part of) the initial mapping: [[path, [col…]]…]"""
     out = []
@@ -678,17 +745,17 @@ def tytable_line(dialects) -> str:
 
 
 # ------------------------------------------------------------------------------------------ correspondence
-def init_view(d, init, raw):
+def init_view(d, init, raw, norm=True):
     """(path, cols) of the initial mapping as names (for building a mirroring `visible`)"""
     if not raw:
         return [(list(p), [c for c, _ in cols]) for p, cols in init]
-    f = fold_fn(d)
+    f = fold_fn(d) if norm else (lambda x: x)
     return [([f(p) if not q else p for p, q in path], [f(c[0]) if not c[1] else c[0] for c, _ in cols]) for path, cols in init]
 
 
 def histories(chk: Check, dialects):
     rng = chk.rng
-    n_random = chk.pick(420, 6000)
+    n_random = chk.pick(1500, 8000)
     max_len = chk.pick(14, 50)
     out = []
     # corpus first: the DESIGN §6 history and its update variant
@@ -714,6 +781,9 @@ def histories(chk: Check, dialects):
     special = [d for d in dialects if d and dia_of(d)["ts"]] + [SETTINGS_DIALECT]
     for _ in range(n_random):
         r = rng.random()
+        if r > 0.85:
+            out.append(focused_history(rng, dialects, avoid_settings_clash=True))
+            continue
         d = rng.choice(special) if r < 0.22 else rng.choice(dialects)
         norm = rng.random() < 0.8
         depth = rng.choice([1, 2, 2, 3])
@@ -721,14 +791,29 @@ def histories(chk: Check, dialects):
         SHARE_NAMES[0] = rng.random() < 0.4
         try:
             if raw:
-                init = raw_initial(rng, depth)
+                # without normalisation the raw keys are kept verbatim (quote characters included): unquoted only
+                init = raw_initial(rng, depth, quoted_ok=norm)
+                if norm and init and rng.random() < 0.06:
+                    # malformed raw mappings: a table without columns / tables at different depths (constructor errors)
+                    if rng.random() < 0.5:
+                        init[rng.randrange(len(init))][1] = []
+                    elif depth > 1:
+                        k = rng.randrange(len(init))
+                        init[k][0] = init[k][0][1:]
+                        if len({tuple(p.lower() for p, _ in path[:1]) for path, _ in init}) < len(init):
+                            init = init[:1]
             else:
                 init = rand_initial(rng, depth, fold_fn(d))
             visible = None
             if rng.random() < 0.25:
-                visible = rand_visible(rng, init_view(d, init, raw and norm))
+                visible = rand_visible(rng, init_view(d, init, raw, norm))
             # per-call dialect overrides: mostly a small set so that the same (name, dialect) key recurs
             few = [rng.choice(dialects) for _ in range(2)] + special
+            if d == SETTINGS_DIALECT:
+                # `Dialect.__eq__/__hash__` ignore a dialect's settings: the string "mysql" and this schema's own MySQL
+                # instance are the SAME cache-key component (known finding C18-dialect-settings-identity; the model
+                # assumes that a dialect's identity determines its settings) — left to the search oracle
+                few = [x for x in few if x != "mysql"]
             ops = [rand_op(rng, depth, few, visible=visible is not None) for _ in range(rng.randint(2, max_len))]
         finally:
             SHARE_NAMES[0] = False
@@ -764,6 +849,8 @@ def correspond(chk: Check) -> list:
         real = Real(init, d, norm, raw=raw, visible=visible)
         lines.append(init_line(h))
         expect.append(real.ctor_error or "ok")
+        if real.ctor_error:
+            chk.count("constructor:" + real.ctor_error)
         where.append((hi, -1))
         chk.count("init:" + ("raw-constructor" if raw else "normalized") + ("+visible" if visible is not None else ""))
         for oi, op in enumerate(ops):
@@ -793,6 +880,37 @@ def correspond(chk: Check) -> list:
 
 
 # ------------------------------------------------------------------------------------------ search (property oracle)
+class settings_aware_dialect_equality:
+    """diagnostic only: make Dialect equality / hashing take the normalization strategy into account (and never equate a
+    Dialect instance with a dialect name), to recognise violations that come from `Dialect.__eq__` ignoring settings"""
+
+    def __enter__(self):
+        _, _, _, _, Dialect = sg()
+        self.D = Dialect
+        self.old = (Dialect.__eq__, Dialect.__hash__)
+        Dialect.__eq__ = lambda a, b: isinstance(b, Dialect) and type(a) is type(b) and a.normalization_strategy == b.normalization_strategy
+        Dialect.__hash__ = lambda a: hash((type(a).__name__, a.normalization_strategy))
+        return self
+
+    def __exit__(self, *exc):
+        self.D.__eq__, self.D.__hash__ = self.old
+        return False
+
+
+def diagnose(h) -> str:
+    if oracle_history(h, type_cache_off="per-dialect") is None:
+        return "type-cache-dialect"  # gone as soon as entries made under another dialect are not reused
+    if oracle_history(h, type_cache_off=True) is None:
+        return "type-cache"
+    try:
+        with settings_aware_dialect_equality():
+            if oracle_history(h) is None:
+                return "dialect-settings-equality"
+    except Exception:  # noqa
+        pass
+    return "other"
+
+
 def oracle_history(h, type_cache_off=False):
     """Returns None if the property holds on this history, else (index, description)."""
     d, norm, init, ops, raw, visible = h
@@ -809,8 +927,19 @@ def oracle_history(h, type_cache_off=False):
             if r0 != "ok":
                 return 0, f"add_table({path}) on an empty schema: {r0}"
     schemas = [real, adds_only] + ([incremental] if incremental else [])
+    last_dialect = "?"
     for i, op in enumerate(ops):
-        if type_cache_off:
+        if type_cache_off == "per-dialect":
+            # diagnostic: simulate a type cache that is keyed on the dialect as well
+            eff = op.get("dialect_arg") if op["op"] != "find" else None
+            if eff != last_dialect:
+                for x in schemas:
+                    x.s._type_mapping_cache.clear()
+            last_dialect = eff
+            type_cache_off_now = False
+        else:
+            type_cache_off_now = bool(type_cache_off)
+        if type_cache_off_now:
             for x in schemas:
                 x.s._type_mapping_cache.clear()
         if op["op"] == "add":
@@ -822,11 +951,16 @@ def oracle_history(h, type_cache_off=False):
                 return i, f"add_table leaked {r1}"
             if r1 != r2:
                 return i, f"add_table outcome depends on earlier lookups: {r1} vs {r2}"
+            if r1 == "ok":
+                # "a table becomes visible as soon as it is added"
+                vis_now = real.visible_now(op)
+                if vis_now:
+                    return i, vis_now
             continue
         fresh = real.fresh()
         r = real.apply(op)
         rf = real.apply(op, schema=fresh)
-        if type_cache_off:
+        if type_cache_off_now:
             adds_only.s._type_mapping_cache.clear()
         ra = real.apply(op, schema=adds_only.s)
         if r.startswith("err internal"):
@@ -836,7 +970,7 @@ def oracle_history(h, type_cache_off=False):
         if r != ra:
             return i, f"{op['op']} answered {r!r}; a schema that saw only the add_table calls answers {ra!r}"
         if incremental is not None:
-            if type_cache_off:
+            if type_cache_off_now:
                 incremental.s._type_mapping_cache.clear()
             ri = real.apply(op, schema=incremental.s)
             if r != ri:
@@ -939,8 +1073,9 @@ def search(chk: Check, hints: list, budget_s: float) -> None:
             found += 1
             h2 = shrink(h)
             what = oracle_history(h2)[1]
-            # does the violation go away when `_type_mapping_cache` is emptied before every call?
-            cause = "type-cache" if oracle_history(h2, type_cache_off=True) is None else "other"
+            # does the violation go away when `_type_mapping_cache` is emptied before every call / when Dialect equality
+            # takes the dialect's settings into account?
+            cause = diagnose(h2)
             d, norm, init, ops, raw, visible = h2
             chk.report_violation(skeleton(h2), what,
                                  {"dialect": d, "normalize": norm, "initial": init, "ops": ops, "raw": raw, "visible": visible},
@@ -952,6 +1087,14 @@ def search(chk: Check, hints: list, budget_s: float) -> None:
     special = [d for d in dialects if d not in md or dia_of(d)["ts"]] + [SETTINGS_DIALECT]
     chk.cov["dialects_overriding_normalize_identifier"] = [d for d in dialects if d not in md or dia_of(d)["ts"]]
     while time.time() - t0 < budget_s:
+        if rng.random() < 0.2:
+            h = focused_history(rng, dialects)
+            consider(h)
+            chk.count("search:focused-hits")
+            chk.case(("search",) + h, nontrivial=True)
+            if len(chk.violations) >= 3:
+                break
+            continue
         d = rng.choice(special) if rng.random() < 0.3 else rng.choice(dialects)
         norm = rng.random() < 0.8
         depth = rng.choice([1, 2, 2, 3])
@@ -960,10 +1103,10 @@ def search(chk: Check, hints: list, budget_s: float) -> None:
         raw = rng.random() < 0.5
         try:
             if raw:
-                init = raw_initial(rng, depth, quoted_ok=rng.random() < 0.5)
+                init = raw_initial(rng, depth, quoted_ok=norm and rng.random() < 0.5)
             else:
                 init = rand_initial(rng, depth, fold_fn(d))
-            visible = rand_visible(rng, init_view(d, init, raw and norm)) if rng.random() < 0.2 else None
+            visible = rand_visible(rng, init_view(d, init, raw, norm)) if rng.random() < 0.2 else None
             # half of the histories use one dialect throughout (per-call overrides of the type parser are a known finding)
             p_dialect = 0.25 if rng.random() < 0.5 else 0.0
             ops = [rand_op(rng, depth, dialects if rng.random() < 0.5 else [d or "duckdb"], ascii_only=ascii_only, p_dialect=p_dialect,
@@ -1008,7 +1151,7 @@ def run(chk: Check) -> None:
         "the text of SchemaError / ValueError messages is canonicalised to an error kind",
     ]
     chk.write_generated(translate(chk))
-    proved = chk.prove(MODULES, "Properties.C18", THEOREMS + THEOREMS_EXTRA)
+    proved = chk.prove(MODULES, "Properties.C18", THEOREMS)
     validate_case_hypotheses(chk)
     hints = []
     try:
